@@ -54,30 +54,43 @@ func (d *Decl) resolveLive(b *Built) string {
 }
 
 func (d *Decl) bindGroup(g *Grp, fg *flags.Group) string {
-	g.FG = fg
-	opts := fg.Options()
-	if len(opts) != len(g.Opts) {
-		return fmt.Sprintf("group %s: %d live options, %d declared", g.Field, len(opts), len(g.Opts))
+	// the options of inline structs are scanned into the same flags.Group, at the position of the struct field;
+	// tagged groups nested inside an inline struct become sub-groups of that flags.Group
+	var effOpts []*Opt
+	var effSubs []*Grp
+	var collect func(x *Grp)
+	collect = func(x *Grp) {
+		x.FG = fg
+		effOpts = append(effOpts, x.Opts...)
+		for _, sg := range x.Subs {
+			switch {
+			case sg.Late:
+			case sg.Inline:
+				collect(sg)
+			default:
+				effSubs = append(effSubs, sg)
+			}
+		}
 	}
-	for i, o := range g.Opts {
+	collect(g)
+	opts := fg.Options()
+	if len(opts) != len(effOpts) {
+		return fmt.Sprintf("group %s: %d live options, %d declared", g.Field, len(opts), len(effOpts))
+	}
+	for i, o := range effOpts {
 		if opts[i].LongName != o.Long || opts[i].ShortName != o.Short {
 			return "option order mismatch in group " + g.Field
 		}
 		o.FO = opts[i]
 	}
 	live := fg.Groups()
-	li := 0
-	for _, sg := range g.Subs {
-		if sg.Late {
-			continue // bound when it was attached
-		}
+	for li, sg := range effSubs {
 		if li >= len(live) {
 			return "nested group missing: " + sg.Field
 		}
 		if why := d.bindGroup(sg, live[li]); why != "" {
 			return why
 		}
-		li++
 	}
 	return ""
 }
@@ -179,6 +192,9 @@ func planMutation(r *Rand, d *Decl, kind string) *histMutation {
 	case "rename-namespace":
 		var cands []*Grp
 		for _, g := range d.Grps {
+			if g.Inline {
+				continue // (an untagged struct has no namespace of its own)
+			}
 			for _, o := range allOptsOf(g) {
 				if o.Long != "" && !o.T.IsFunc() && !o.Required {
 					cands = append(cands, g)
